@@ -624,6 +624,50 @@ pub fn run(ctx: &Ctx) -> (Stats, Report) {
         });
         st.merge(s);
     }
+    // text payloads written field by field at the limits: the limit day count (and its
+    // neighbours) with every boundary / binary-boundary time of day, both signs; limit years with
+    // every month; first / last supported dates and their outside neighbours
+    {
+        let mut times = pools::time_edges();
+        times.extend(pools::binary_times_of_day());
+        times.extend(pools::mirrored_binary_times());
+        let hms = |t: i128| format!("{:02}:{:02}:{:02}.{:06}", t / US_PER_HOUR, t % US_PER_HOUR / US_PER_MIN, t % US_PER_MIN / US_PER_SEC, t % US_PER_SEC);
+        let mut payloads: Vec<(Kind, String)> = vec![];
+        for d in [99_999_999u32, 100_000_000, 100_000_001] {
+            for &t in &times {
+                for sign in ["", "+", "-"] {
+                    payloads.push((Kind::DT, format!("\"{sign}{d} {}\"", hms(t))));
+                }
+            }
+        }
+        for y in [177_999_999u32, 178_000_000, 178_000_001] {
+            for m in 0..=12 {
+                for sign in ["", "+", "-"] {
+                    payloads.push((Kind::YM, format!("\"{sign}{y}-{m:02}\"")));
+                }
+            }
+        }
+        for date in ["0000-12-31", "0001-01-01", "9999-12-31", "10000-01-01", "9999-12-32", "9999-13-01"] {
+            payloads.push((Kind::Date, format!("\"{date}\"")));
+            for &t in &times {
+                payloads.push((Kind::Ts, format!("\"{date} {}\"", hms(t))));
+                payloads.push((Kind::Ora, format!("\"{date} {}\"", &hms(t)[..8])));
+            }
+        }
+        for &t in &times {
+            payloads.push((Kind::Time, format!("\"{}\"", hms(t))));
+            payloads.push((Kind::Time, format!("\"{}\"", hms(t + US_PER_DAY))));
+        }
+        for (kind, payload) in payloads {
+            st.evaluations += 1;
+            st.nontrivial_enum += 1;
+            match check_decode_json(kind, &payload) {
+                Ok(true) => st.class("limit-text-payload-accepted-in-range"),
+                Ok(false) => st.class("limit-text-payload-rejected"),
+                Err(m) => st.fail(0, Case::new(P, "decode_json", vec![kind.index() as i128], vec![payload]), m),
+            }
+        }
+    }
     st.section("json_payloads", &mut mark);
 
     // histories: sequences of successful and failing (de)serializations on one thread
@@ -680,7 +724,7 @@ pub fn run(ctx: &Ctx) -> (Stats, Report) {
     st.section("concurrent_histories", &mut mark);
 
     let rep = Report {
-        rule: "Round trips through serde_json and bincode: all dates, every second of the day x {0,1,999999} us, boundary+seeded pools of all six types; the JSON text must equal the reference rendering of the fixed layout in quotes and the binary form the little-endian raw count. Decoding: raw integers at every range limit +-0..3 and +-1e6, the i32/i64 extremes and seeded integers (uniform over the integer width, around the range, inside the range) as bincode payloads of every type (non-whole-second counts for the Oracle date included); JSON payloads made by 1..3 random edits of valid strings plus non-string JSON, and long strings (valid or empty head + filler of every length 0..=600, 5000 in thorough, + a 2-, 3- or 4-byte character, so that a multi-byte character straddles every byte offset); integers handed to Deserialize in every width (i8..i128, u8..u128) by serde's de::value deserializers - range limits, small values and their images shifted by multiples of 2^8..2^65, extremes, seeded values: Err, or exactly the value whose raw count is that integer (never a truncated image). Concurrent histories: 16 threads, each walking its own three days (staying on a day 3 times out of 4) and round-tripping every value twice, so that any state the library shares between calls is hit from several threads (schedule-dependent: sound on any tree, sensitivity probabilistic). Oracle: round trip returns the same value; any other payload yields Err or a value satisfying the range predicate (whole seconds for the Oracle date). Non-trivial = every round-tripped value; out-of-range binary payloads; every perturbed JSON payload (distinct by content).".into(),
+        rule: "Round trips through serde_json and bincode: all dates, every second of the day x {0,1,999999} us, boundary+seeded pools of all six types; the JSON text must equal the reference rendering of the fixed layout in quotes and the binary form the little-endian raw count. Decoding: raw integers at every range limit +-0..3 and +-1e6, the i32/i64 extremes and seeded integers (uniform over the integer width, around the range, inside the range) as bincode payloads of every type (non-whole-second counts for the Oracle date included); JSON payloads made by 1..3 random edits of valid strings plus non-string JSON, text payloads written field by field at the limits (limit day count +-1 x every boundary / binary-boundary time of day x sign, limit years x months, first / last supported dates and their outside neighbours x times), and long strings (valid or empty head + filler of every length 0..=600, 5000 in thorough, + a 2-, 3- or 4-byte character, so that a multi-byte character straddles every byte offset); integers handed to Deserialize in every width (i8..i128, u8..u128) by serde's de::value deserializers - range limits, small values and their images shifted by multiples of 2^8..2^65, extremes, seeded values: Err, or exactly the value whose raw count is that integer (never a truncated image). Concurrent histories: 16 threads, each walking its own three days (staying on a day 3 times out of 4) and round-tripping every value twice, so that any state the library shares between calls is hit from several threads (schedule-dependent: sound on any tree, sensitivity probabilistic). Oracle: round trip returns the same value; any other payload yields Err or a value satisfying the range predicate (whole seconds for the Oracle date). Non-trivial = every round-tripped value; out-of-range binary payloads; every perturbed JSON payload (distinct by content).".into(),
         assumptions: vec!["bincode 1.3 default configuration (little-endian fixed-width integers) and serde_json as the two data formats".into()],
         exhaustive: false,
         extra: Default::default(),
